@@ -36,10 +36,12 @@ def _last(outs, fn):
 
 @harness("C10.history",
          quick=[dict(K=3, ndev=1, nf=2, events=ALL_EVENTS), dict(K=3, ndev=2, nf=1, events=["net", "net_raw", "clear_net"]), dict(K=4, ndev=1, nf=1, events=["net", "disk"]),
-                dict(K=3, ndev=2, nf=1, events=["net", "disk", "clear_disk"])],
+                dict(K=3, ndev=2, nf=1, events=["net", "disk", "clear_disk"]), dict(K=5, ndev=1, nf=1, events=[], script=["disk", "disk", "clear_disk", "disk", "disk"]),
+                dict(K=5, ndev=2, nf=1, events=[], script=["net", "net", "net", "net", "net"])],
          thorough=[dict(K=4, ndev=1, nf=1, events=ALL_EVENTS), dict(K=3, ndev=2, nf=2, events=ALL_EVENTS), dict(K=4, ndev=2, nf=1, events=["net", "net_raw", "clear_net"]),
                    dict(K=5, ndev=1, nf=1, events=["disk", "clear_disk"]), dict(K=4, ndev=2, nf=1, events=["net", "disk"])])
-def history(ctx, K, ndev, nf, events):
+def history(ctx, K, ndev, nf, events, script=None):
+    """script: a fixed list of events (raw values and presence stay symbolic, so e.g. "the same snapshot twice" is among the cases)"""
     k = simk.Kernel(ctx)
     DEV = [f"d{i}" for i in range(ndev)]
     ref = {"net": {}, "disk": {}}      # reference model per function: device -> (previous raw, offsets)
@@ -47,7 +49,7 @@ def history(ctx, K, ndev, nf, events):
     extra = [(_pslinux, "net_io_counters", _pslinux.net_io_counters), (_pslinux, "disk_io_counters", _pslinux.disk_io_counters)]
     with k.installed(extra=extra):
         for step in range(K):
-            ev = ctx.choice(f"ev{step}", events)
+            ev = script[step] if script else ctx.choice(f"ev{step}", events)
             if ev.startswith("clear"):
                 fn = ev.split("_")[1]
                 (psutil.net_io_counters if fn == "net" else psutil.disk_io_counters).cache_clear()
